@@ -30,6 +30,10 @@ def routes():
         r.append(("coll:" + ty, [7, a]))
     r.append(("bare", []))
     r.append(("undeclared", [0, 77]))
+    # a path that goes on after a list-typed attribute (directly and through an edge)
+    for ty in ("STRING_LIST", "NUMERIC_LIST", "BOOLEAN_LIST"):
+        r.append(("pastlist:" + ty, [ATTR[ty], 77]))
+        r.append(("edge-pastlist:" + ty, [6, ATTR[ty], 78]))
     return r
 
 
@@ -89,8 +93,14 @@ def run(ctx):
         cells += [(l, o, r) for l in direct for o in S.OPS for r in direct + lits]                   # 8 x 14 x 17
         others = [(l, o, r) for l in R for o in S.OPS for r in R + lits if not (l in direct and r in direct + lits)]
         cells += rng.sample(others, 500) + [(l, o, r) for l in lits[:3] for o in S.OPS[:2] for r in direct]
+        # systematically: paths past a list attribute against what the list itself would fit; literal against literal
+        past = [r for r in R if "pastlist:" in r[0]]
+        extra = [(l, o, r) for l in past for o in ("CONTAINS", "EQUALS", "DOES_NOT_CONTAIN") for r in lits[:5] + direct[:3]]
+        extra += [(l, o, r) for l in lits[:2] for o in ("CONTAINS", "ONE_OF") for r in past if o in S.OPS]
+        extra += [(l, o, r) for l in lits for o in ("EQUALS", "DOES_NOT_EQUAL", "CONTAINS", "GREATER_THAN") for r in lits]
+        cells += [c for c in extra if c not in cells]
     else:
-        cells += [(l, o, r) for l in R for o in S.OPS for r in R + lits] + [(l, o, r) for l in lits for o in S.OPS for r in R]
+        cells += [(l, o, r) for l in R for o in S.OPS for r in R + lits] + [(l, o, r) for l in lits for o in S.OPS for r in R + lits]
     items = []
     for (l, o, r) in cells:
         s = cell_scenario(l, o, r)
